@@ -349,6 +349,8 @@ func (r *Runner) emit(e *Event) {
 	b, _ := json.Marshal(e)
 	r.Out.Write(b)
 	r.Out.WriteByte('\n')
+	// the node may crash at any step when the code under test is defective: keep the trace on disk complete
+	r.Out.Flush()
 }
 
 func prioOf(q string) gen.MessagePriority {
